@@ -54,7 +54,7 @@ def main():
     rows = {}
     final = {}
     if os.path.isdir(logs):
-        names = sorted(os.listdir(logs), key=lambda f: os.path.getmtime(os.path.join(logs, f)))
+        names = sorted(os.listdir(logs), key=lambda f: (not (f.startswith("s") and f[1:2].isdigit()), os.path.getmtime(os.path.join(logs, f))))
         for fn in names:
             if not fn.endswith(".log"):
                 continue
@@ -63,7 +63,7 @@ def main():
                     r = json.loads(line)
                 except Exception:
                     continue
-                if fn.startswith("s"):
+                if fn.startswith("s") and fn[1:2].isdigit():
                     rows[r["id"]] = r
                 final.setdefault(r["id"], {}).update(r.get("checks", {}))
     res_path = os.path.join(SEEDED, "RESULTS.json")
